@@ -8,14 +8,17 @@ pub mod c06;
 pub mod c09;
 pub mod c03;
 pub mod c08;
+pub mod c10;
 pub mod c11;
 pub mod c12;
 pub mod c13;
 pub mod c14;
 pub mod c15;
 pub mod c16;
+pub mod c17;
 pub mod c18;
 pub mod c19;
+pub mod c20;
 
 pub fn run(id: &str, ctx: &mut Ctx) -> bool {
     match id {
@@ -28,13 +31,16 @@ pub fn run(id: &str, ctx: &mut Ctx) -> bool {
         "C09" => c09::run(ctx),
         "C03" => c03::run(ctx),
         "C08" => c08::run(ctx),
+        "C10" => c10::run(ctx),
         "C11" => c11::run(ctx),
         "C12" => c12::run(ctx),
         "C14" => c14::run(ctx),
         "C15" => c15::run(ctx),
         "C16" => c16::run(ctx),
+        "C17" => c17::run(ctx),
         "C18" => c18::run(ctx),
         "C19" => c19::run(ctx),
+        "C20" => c20::run(ctx),
         _ => return false,
     }
     true
